@@ -19,10 +19,14 @@
    carries the flag, setNextVersion deletes it from policiesVersions in the same
    Lock section and does NOT queue it in policiesVersionsVacuum.
 
-   The correspondence suites keep evaluating Model.run_case: the harness drives
-   the four real entry points and records each as Update / UpdBegin (what
-   [forget] below does), so the agreement of the code with Model.update for the
-   entry points is checked on every run. *)
+   Correspondence: the suites hist / routing / fine keep evaluating
+   Model.run_case etc.: there the harness records each real entry point as
+   Update / UpdBegin (what [forget] below does).  Suite "failsafe" (end of this
+   file: case_failsafe / run_failsafe) evaluates [estep] itself: the histories
+   driven through the real entry points with the entry points as distinct
+   operations, compared on the object handed out, the version anchored,
+   currentVersion, the stand-in flag of the current PoliciesData and the
+   retained objects with their flags. *)
 From Coq Require Import List ZArith Bool Lia Sorted.
 From Verif Require Import C11.Model C11.Proofs.
 Import ListNotations.
@@ -184,4 +188,211 @@ Proof.
   apply (retained_window d0 (map forget pre) txn t0 (map forget mid) P).
   apply Forall_forall. intros a Ha. apply in_map_iff in Ha. destruct Ha as [x [<- Hx]].
   rewrite Forall_forall in F. exact (F x Hx).
+Qed.
+
+(* ================================================================== *)
+(* correspondence suite "failsafe": histories of entry points evaluated *)
+(* by [estep], entry points as DISTINCT operations                      *)
+
+(* What the harness reads off the accessor after every action of a history it
+   drove through the real entry points (entry.go, coqFailsafe):
+     eo_got      look-up: token of the object handed out (-1 = the empty
+                 PoliciesData of the fallback's error branch); 0 otherwise
+     eo_ver      look-up: version the transaction is anchored to afterwards; 0 otherwise
+     eo_cur      currentVersion
+     eo_standin  the CURRENT PoliciesData (GetCurrentPoliciesData()) carries
+                 diagnosisFreeReverted: the accessor is serving the diagnosis-free stand-in
+     eo_ret      the objects still in policiesVersions in version order, each
+                 with its diagnosisFreeReverted flag
+   The flag is set by BuildPolicyData(config, true) inside RevertToDiagnosisFree
+   only: the harness cannot set it on an object of its own, it reads it back. *)
+(* a retained object with its flag (a constructor of its own: case files full
+   of pairs elaborate several times slower) *)
+Inductive fret := R (d : Z) (f : bool).
+
+Record eobs := EObs {
+  eo_got : Z;
+  eo_ver : Z;
+  eo_cur : Z;
+  eo_standin : bool;
+  eo_ret : list fret
+}.
+
+(* the model's observation after a step that led to s and handed out o *)
+Definition eview (s : est) (o : option out) : eobs :=
+  {| eo_got := got_of o;
+     eo_ver := ver_of o;
+     eo_cur := cur (ebase s);
+     eo_standin := is_flagged (cur (ebase s)) s;
+     eo_ret := map (fun e => R (snd e) (is_flagged (fst e) s)) (vers (ebase s)) |}.
+
+(* a run of variant V: the observation after every action *)
+Fixpoint erun (V : evariant) (s : est) (h : list eact) : list eobs :=
+  match h with
+  | [] => []
+  | a :: r => eview (fst (estep V s a)) (snd (estep V s a)) :: erun V (fst (estep V s a)) r
+  end.
+
+(* one executed action with what the implementation showed after it *)
+Inductive fsev := FS (a : eact) (o : eobs).
+Definition fs_act (e : fsev) : eact := let 'FS a _ := e in a.
+Definition fs_obs (e : fsev) : eobs := let 'FS _ o := e in o.
+
+(* (token of the initial PoliciesData, executed history) *)
+Definition case_failsafe := (Z * list fsev)%type.
+
+Fixpoint eq_zbs (a b : list fret) : bool :=
+  match a, b with
+  | [], [] => true
+  | R x f :: a', R y g :: b' => (x =? y) && Bool.eqb f g && eq_zbs a' b'
+  | _, _ => false
+  end.
+
+Definition eq_eobs (a b : eobs) : bool :=
+  (eo_got a =? eo_got b) && (eo_ver a =? eo_ver b) && (eo_cur a =? eo_cur b) &&
+  Bool.eqb (eo_standin a) (eo_standin b) && eq_zbs (eo_ret a) (eo_ret b).
+
+(* index of the first action after which model and implementation differ, with
+   what the model says there *)
+Fixpoint echeck (V : evariant) (n : nat) (s : est) (h : list fsev) : option (nat * eobs) :=
+  match h with
+  | [] => None
+  | FS a o :: r =>
+      let s' := fst (estep V s a) in
+      let m := eview s' (snd (estep V s a)) in
+      if eq_eobs o m then echeck V (S n) s' r else Some (n, m)
+  end.
+
+(* the variant the suite evaluates: the code as it is *)
+Definition ecode_variant : evariant := ehead.
+
+Definition run_failsafe (k : case_failsafe) : option (nat * eobs) :=
+  let '(d0, evs) := k in echeck ecode_variant O (einit d0) evs.
+
+(* ---- an accepted case is a run ---- *)
+
+Lemma eq_zbs_eq a : forall b, eq_zbs a b = true -> a = b.
+Proof.
+  induction a as [|[x f] a IH]; intros [|[y g] b] H; cbn in H; try discriminate H; [reflexivity|].
+  apply andb_prop in H. destruct H as [H H3]. apply andb_prop in H. destruct H as [H1 H2].
+  apply Z.eqb_eq in H1. apply Bool.eqb_prop in H2. subst. rewrite (IH b H3). reflexivity.
+Qed.
+
+Lemma eq_eobs_eq a b : eq_eobs a b = true -> a = b.
+Proof.
+  destruct a as [g1 v1 c1 f1 r1], b as [g2 v2 c2 f2 r2]. unfold eq_eobs. cbn [eo_got eo_ver eo_cur eo_standin eo_ret].
+  intros H.
+  apply andb_prop in H. destruct H as [H H5]. apply andb_prop in H. destruct H as [H H4].
+  apply andb_prop in H. destruct H as [H H3]. apply andb_prop in H. destruct H as [H1 H2].
+  apply Z.eqb_eq in H1. apply Z.eqb_eq in H2. apply Z.eqb_eq in H3.
+  apply Bool.eqb_prop in H4. apply eq_zbs_eq in H5. subst. reflexivity.
+Qed.
+
+Lemma echeck_cons V n s a o r :
+  echeck V n s (FS a o :: r) = None ->
+  o = eview (fst (estep V s a)) (snd (estep V s a)) /\
+  echeck V (S n) (fst (estep V s a)) r = None.
+Proof.
+  cbn [echeck]. destruct (eq_eobs o (eview (fst (estep V s a)) (snd (estep V s a)))) eqn:E.
+  - intros H. split; [exact (eq_eobs_eq _ _ E)|exact H].
+  - intros H. discriminate H.
+Qed.
+
+Lemma echeck_app V e1 : forall n s e2,
+  echeck V n s (e1 ++ e2) = None ->
+  echeck V n s e1 = None /\
+  echeck V (n + length e1) (eafter V s (map fs_act e1)) e2 = None.
+Proof.
+  induction e1 as [|[a o] e1 IH]; intros n s e2 H.
+  - cbn. rewrite Nat.add_0_r. split; [reflexivity|exact H].
+  - rewrite <- app_comm_cons in H. destruct (echeck_cons _ _ _ _ _ _ H) as [Ho Hr].
+    destruct (IH _ _ _ Hr) as [H1 H2]. split.
+    + cbn [echeck]. rewrite <- Ho.
+      assert (X : eq_eobs o o = true).
+      { clear. destruct o as [g v c f r]. unfold eq_eobs. cbn [eo_got eo_ver eo_cur eo_standin eo_ret].
+        rewrite !Z.eqb_refl, Bool.eqb_reflx. cbn [andb].
+        induction r as [|[x b] r IHr]; [reflexivity|]. cbn [eq_zbs]. rewrite Z.eqb_refl, Bool.eqb_reflx, IHr. reflexivity. }
+      rewrite X. exact H1.
+    + cbn [map fs_act length eafter fold_left].
+      replace (n + S (length e1))%nat with (S n + length e1)%nat by lia.
+      exact H2.
+Qed.
+
+Lemma echeck_is_run V evs : forall n s,
+  echeck V n s evs = None -> map fs_obs evs = erun V s (map fs_act evs).
+Proof.
+  induction evs as [|[a o] evs IH]; intros n s H; [reflexivity|].
+  destruct (echeck_cons _ _ _ _ _ _ H) as [Ho Hr].
+  cbn [map fs_obs fs_act erun]. rewrite <- Ho, (IH _ _ Hr). reflexivity.
+Qed.
+
+(* and conversely: the suite accepts exactly the runs *)
+Lemma run_is_accepted V h : forall n s,
+  echeck V n s (map (fun ao => FS (fst ao) (snd ao)) (combine h (erun V s h))) = None.
+Proof.
+  induction h as [|a h IH]; intros n s; [reflexivity|].
+  cbn [erun combine map fst snd echeck].
+  assert (X : forall o, eq_eobs o o = true).
+  { clear. intros [g v c f r]. unfold eq_eobs. cbn [eo_got eo_ver eo_cur eo_standin eo_ret].
+    rewrite !Z.eqb_refl, Bool.eqb_reflx. cbn [andb].
+    induction r as [|[x b] r IHr]; [reflexivity|]. cbn [eq_zbs]. rewrite Z.eqb_refl, Bool.eqb_reflx, IHr. reflexivity. }
+  rewrite X. apply IH.
+Qed.
+
+Lemma lookup_in k d (m : amap) : lookup k m = Some d -> In (k, d) m.
+Proof.
+  induction m as [|[k' v] m IH]; cbn [lookup]; [discriminate|].
+  destruct (k =? k') eqn:E.
+  - intros H. injection H as ->. apply Z.eqb_eq in E. subst. left. reflexivity.
+  - intros H. right. exact (IH H).
+Qed.
+
+(* the pinned-version statement read off an ACCEPTED case: the two observations
+   of the transaction agree and are what C11_pinned_across_failsafe says *)
+Lemma accepted_case_pinned d0 epre txn t0 o1 emid t o2 :
+  run_failsafe (d0, epre ++ FS (EA (Get txn t0)) o1 :: emid ++ [FS (EA (Get txn t)) o2]) = None ->
+  let pre := map fs_act epre in
+  let mid := map fs_act emid in
+  monotone (map forget (pre ++ EA (Get txn t0) :: mid ++ [EA (Get txn t)])) ->
+  lookup txn (pins (ebase (eafter ehead (einit d0) pre))) = None ->
+  t <= t0 + ttl ->
+  eo_got o2 = eo_got o1 /\ eo_ver o2 = eo_ver o1 /\
+  eo_got o1 = last_data d0 (map forget pre) /\
+  eo_ver o1 = cur (ebase (eafter ehead (einit d0) pre)).
+Proof.
+  intros H pre mid M P T. unfold run_failsafe, ecode_variant in H.
+  destruct (echeck_app _ _ _ _ _ H) as [_ H1].
+  destruct (echeck_cons _ _ _ _ _ _ H1) as [E1 H2].
+  destruct (echeck_app _ _ _ _ _ H2) as [_ H3].
+  destruct (echeck_cons _ _ _ _ _ _ H3) as [E2 _].
+  fold pre in E1, E2. fold mid in E2.
+  destruct (pinned_entry_head d0 pre txn t0 mid t M P T) as [Q1 Q2]. cbn zeta in Q1, Q2.
+  rewrite E2, E1. unfold eview. cbn [eo_got eo_ver].
+  rewrite Q1, Q2. cbn [got_of ver_of o_ver o_data]. repeat split; reflexivity.
+Qed.
+
+(* the retention statement read off an accepted case: after every action of the
+   window the version current at t0 is among the retained objects the
+   implementation showed, with the data of the last entry point before t0 *)
+Lemma accepted_case_retains d0 epre txn t0 o1 emid a o :
+  run_failsafe (d0, epre ++ FS (EA (Get txn t0)) o1 :: emid ++ [FS a o]) = None ->
+  let pre := map fs_act epre in
+  let mid := map fs_act emid ++ [a] in
+  lookup txn (pins (ebase (eafter ehead (einit d0) pre))) = None ->
+  Forall (fun a => t0 <= time_of (forget a) <= t0 + ttl) mid ->
+  exists f, In (R (last_data d0 (map forget pre)) f) (eo_ret o).
+Proof.
+  intros H pre mid P F. unfold run_failsafe, ecode_variant in H.
+  destruct (echeck_app _ _ _ _ _ H) as [_ H1].
+  destruct (echeck_cons _ _ _ _ _ _ H1) as [_ H2].
+  destruct (echeck_app _ _ _ _ _ H2) as [_ H3].
+  destruct (echeck_cons _ _ _ _ _ _ H3) as [E2 _].
+  fold pre in E2.
+  pose proof (retention_entry_head d0 pre txn t0 mid P F) as HR. cbn zeta in HR.
+  unfold mid in HR. unfold eafter in HR. rewrite fold_left_app in HR. cbn [fold_left] in HR.
+  fold (eafter ehead) in HR.
+  apply lookup_in in HR.
+  rewrite E2. unfold eview. cbn [eo_ret].
+  eexists. 
+  apply (in_map (fun e => R (snd e) (is_flagged (fst e) _)) _ _ HR).
 Qed.
